@@ -100,6 +100,10 @@ class DictRun:
         base = 30 + tl // 10000
         if case.big:
             base *= 4
+        if case.kind in FC:   # a bucket of hundreds of strings makes every in-bucket access linear in the bucket: legitimately slow
+            b = min(case.bs(), len(case.S))
+            if b > 256:
+                base *= 1 + b / 128.0
         if case.kind == "XBW":
             base *= 10
         if case.kind == "FMINDEX":   # substring location walks up to one whole string per occurrence when the BWT sampling is sparse
